@@ -18,6 +18,7 @@ type Scenario struct {
 	ArbSeq    bool         `json:"arb_seq,omitempty"` // arbitrary sequence numbers (reliable transports only)
 	Pace      int          `json:"pace,omitempty"`    // yield 50µs every Pace writes
 	Relay     string       `json:"relay,omitempty"`   // "", "tcp", "udp": publisher → server session → stream
+	PubCap    int          `json:"pub_cap,omitempty"` // relay: the publishing client\'s WriteQueueSize
 	Readers   []ReaderSpec `json:"readers"`
 	NoModel   bool         `json:"no_model,omitempty"`   // property oracle only (very long runs)
 	SizeSweep bool         `json:"size_sweep,omitempty"` // write number i has i+1 payload bytes
